@@ -392,6 +392,7 @@ func (h *vhost) CreateConnection(ctx context.Context) types.CreateConnectionData
 // leases (one per successful NewStream) - receiver and stream event listener of the real stream
 
 type lease struct {
+	recvWanted bool // a receiver was passed to NewStream (two-way request)
 	idx    int
 	cli    int
 	tok    int
@@ -475,6 +476,7 @@ type world struct {
 	leases   []*lease
 	ext      int
 	failedDials int
+	noHeldWait  bool // the caller waits for the streams of a closed connection itself
 	noModel     bool
 	raced       int
 	raceFinding string
@@ -768,7 +770,7 @@ func (w *world) connClose(c *cliRec, how string) {
 	case "writetimeout":
 		c.conn.Close(api.NoFlush, api.OnWriteTimeout)
 	}
-	if held != nil && (w.kind == kPingPong || held.sent) {
+	if held != nil && !w.noHeldWait && (w.kind == kPingPong || held.sent) {
 		w.wait("reset-after-close", time.Second, func() bool { return !held.live() })
 	}
 }
